@@ -1,18 +1,34 @@
-"""C07 family 6: EVPN route types 1-4, ESI types 0-5.  ORACLE ONLY: there is no Coq model of
-yabgp/message/attribute/nlri/evpn.py yet (reported as not covered); the round trip is evaluated
-on the implementation and failures are attributed to the known input classes."""
+"""C07 family 6: EVPN route types 1-4, ESI types 0-5 (model coq/model/YEvpn.v, theorems C07_evpn_*).
+
+Every generated value is (a) constructed and parsed by the implementation, (b) constructed and parsed
+by the Coq model inside Coq and compared with (a) (correspondence), (c) judged by the round-trip
+oracle on the implementation.  Values outside the range of the property (malformed MAC text, a route
+type 3/4 without address, out-of-range fields, ...) and hand-made octet strings (route type 5, unknown
+route / ESI types, truncated routes) are evaluated on model and implementation only (no oracle).
+
+Canonical form of a route (both sides; the Coq rendering is sx_proute of YEvpn.v):
+  [1, rd, esi, tag, labels] / [2, rd, esi, tag, MAC text, [ip]?, labels] / [3, rd, tag, [ip]?] /
+  [4, rd, esi, [ip]?] / [5, rd, esi, tag, plen, prefix, gateway, labels]
+rd = [kind, a, b] | [3]; esi = [0, v] | [1|2|3, MAC text, n] | [4|5, a, b] | [t]; ip = [version, integer];
+MAC text = the characters (the model works on the text: split on '-', int(g, 16), six groups)."""
 import copy
 
 import netaddr
 
-from props.c07 import Family, ip6, ip4, caddr, size_targets, fill_sizes
-from props.c07_vpn import rd_text, crd, rd_boundaries, rnd_rd, LABELS
+from props.c07 import Family, ip6, ip4, caddr, size_targets, fill_sizes, run_impl, coq_opt, coq_list
+from props.c07_vpn import rd_text, crd, coq_rd, rd_boundaries, rnd_rd, LABELS
+from session import Bytes, coq_bytes
 
 K_ESI3 = 'C07-evpn-esi-type-3-local-discriminator-width'
 K_LOW = 'C07-evpn-low-ipv6-address-as-ipv4'
+ESI_MAC_KEY = {1: ('ce_mac_addr', 'ce_port_key'), 2: ('rb_mac_addr', 'rb_priority'), 3: ('sys_mac_addr', 'ld_value')}
+ESI_INT_KEY = {4: ('router_id', 'ld_value'), 5: ('as_num', 'ld_value')}
 
 
 def mac_text(n):
+    """a MAC in a case is an integer (canonical text is generated) or the text itself"""
+    if isinstance(n, str):
+        return n
     return '-'.join('%02X' % ((n >> (8 * i)) & 255) for i in range(5, -1, -1))
 
 
@@ -20,18 +36,103 @@ def cmac(t):
     return int(netaddr.EUI(t))
 
 
+def ctext(t):
+    return Bytes(t.encode('latin-1'))
+
+
 def nbytes(v):
     return max(1, (v.bit_length() + 7) // 8)
 
 
+# ------------------------------------------------------------------ canonical forms (implementation side)
+def cesi(e):
+    t, ev = e['type'], e['value']
+    if t == 0 and not isinstance(ev, dict):
+        return [0, ev]
+    if t in ESI_MAC_KEY:
+        a, b = ESI_MAC_KEY[t]
+        return [t, ctext(ev[a]), ev[b]]
+    if t in ESI_INT_KEY:
+        a, b = ESI_INT_KEY[t]
+        return [t, ev[a], ev[b]]
+    assert ev == {}
+    return [t]
+
+
+def copt_ip(x):
+    return [caddr(x['ip'])] if 'ip' in x else []
+
+
+def canon_route(r):
+    """parse result {'type', 'value'} -> canonical list; raises when the shape is not that of the type"""
+    t, x = r['type'], r['value']
+    if t == 1:
+        assert sorted(x) == ['esi', 'eth_tag_id', 'label', 'rd']
+        return [1, crd(x['rd']), cesi(x['esi']), x['eth_tag_id'], list(x['label'])]
+    if t == 2:
+        assert sorted(k for k in x if k != 'ip') == ['esi', 'eth_tag_id', 'label', 'mac', 'rd']
+        return [2, crd(x['rd']), cesi(x['esi']), x['eth_tag_id'], ctext(x['mac']), copt_ip(x), list(x['label'])]
+    if t == 3:
+        assert sorted(k for k in x if k != 'ip') == ['eth_tag_id', 'rd']
+        return [3, crd(x['rd']), x['eth_tag_id'], copt_ip(x)]
+    if t == 4:
+        assert sorted(k for k in x if k != 'ip') == ['esi', 'rd']
+        return [4, crd(x['rd']), cesi(x['esi']), copt_ip(x)]
+    if t == 5:
+        assert sorted(x) == ['esi', 'eth_tag_id', 'gateway', 'label', 'prefix', 'rd']
+        a, l = x['prefix'].split('/')
+        return [5, crd(x['rd']), cesi(x['esi']), x['eth_tag_id'], int(l), caddr(a), caddr(x['gateway']), list(x['label'])]
+    raise AssertionError('route type %r' % t)
+
+
+# ------------------------------------------------------------------ Coq terms (model side)
+def coq_addr(a):
+    return '(%s %d)' % ('V4' if a[0] == 4 else 'V6', a[1])
+
+
+def coq_str(t):
+    return coq_bytes(t.encode('latin-1'))
+
+
+def coq_esi(e):
+    t, ev = e['type'], e['value']
+    if t == 0:
+        return '(Esi0 %d)' % ev
+    if t in ESI_MAC_KEY:
+        a, b = ESI_MAC_KEY[t]
+        return '(Esi%d %s %d)' % (t, coq_str(mac_text(ev[a])), ev[b])
+    if t in ESI_INT_KEY:
+        a, b = ESI_INT_KEY[t]
+        return '(Esi%d %d %d)' % (t, ev[a], ev[b])
+    return '(EsiOther %d)' % t
+
+
+def coq_route(r):
+    t, x = r['type'], r['value']
+    ip = coq_opt(x.get('ip'), coq_addr)
+    if t == 1:
+        return '(EAutoDiscovery %s %s %d %s)' % (coq_rd(x['rd']), coq_esi(x['esi']), x['eth_tag_id'], coq_list(x['label']))
+    if t == 2:
+        return '(EMacIp %s %s %d %s %s %s)' % (coq_rd(x['rd']), coq_esi(x['esi']), x['eth_tag_id'],
+                                               coq_str(mac_text(x['mac'])), ip, coq_list(x.get('label') or []))
+    if t == 3:
+        return '(EMulticast %s %d %s)' % (coq_rd(x['rd']), x['eth_tag_id'], ip)
+    if t == 4:
+        return '(ESegment %s %s %s)' % (coq_rd(x['rd']), coq_esi(x['esi']), ip)
+    return '(EUnknown %d)' % t
+
+
 class Evpn(Family):
     name = 'evpn'
-    modelled = False
-    imports = ''
+    modelled = True
+    imports = 'From YV Require Import lib.Base lib.Dec gen.Consts model.YMp model.YLabel model.YEvpn.\n'
 
     def gen(self, ctx):
         rng = ctx.rng
         cases = []
+        self.coverage = cov = {'esi_types_small_large': 0, 'label_value_cases': 0, 'rd_boundary_cases': 0,
+                               'eth_tag_boundary_cases': 0, 'mac_ip_presence_cases': 0, 'mac_text_forms': 0,
+                               'out_of_range_cases': 0, 'routes_per_attribute': {}}
 
         def addr(v6=None, low=False):
             if v6 is None:
@@ -46,11 +147,11 @@ class Evpn(Family):
             if t == 0:
                 return {'type': 0, 'value': (2 ** 72 - 1 if rng.random() < .3 else rng.getrandbits(72)) if big else rng.choice([0, 1, 255])}
             if t == 1:
-                return {'type': 1, 'value': {'ce_mac_addr': mac_text(m), 'ce_port_key': 65535 if big else rng.choice([0, 1])}}
+                return {'type': 1, 'value': {'ce_mac_addr': m, 'ce_port_key': 65535 if big else rng.choice([0, 1])}}
             if t == 2:
-                return {'type': 2, 'value': {'rb_mac_addr': mac_text(m), 'rb_priority': 65535 if big else rng.choice([0, 1])}}
+                return {'type': 2, 'value': {'rb_mac_addr': m, 'rb_priority': 65535 if big else rng.choice([0, 1])}}
             if t == 3:
-                return {'type': 3, 'value': {'sys_mac_addr': mac_text(m),
+                return {'type': 3, 'value': {'sys_mac_addr': m,
                                              'ld_value': rng.choice([2 ** 24 - 1, 65536, rng.randrange(65536, 2 ** 24)]) if big
                                              else rng.choice([0, 1, 255, 256, 65535])}}
             if t == 4:
@@ -59,26 +160,32 @@ class Evpn(Family):
             return {'type': 5, 'value': {'as_num': 2 ** 32 - 1 if big else rng.choice([0, 1, 65535]),
                                          'ld_value': 2 ** 32 - 1 if big else rng.choice([0, 1])}}
 
-        def route(rt, e=None, rd=None, ip=None, labels=None, has_ip=True):
+        def route(rt, e=None, rd=None, ip=None, labels=None, has_ip=True, tag=None, mac=None):
             rd = rd or rnd_rd(rng)
             e = e or esi(rng.randrange(6))
             ip = ip or addr()
-            tag = rng.choice([0, 1, 2 ** 32 - 1, rng.getrandbits(32)])
-            lab = labels or [rng.choice(LABELS + [rng.randrange(2 ** 20)])]
+            if tag is None:
+                tag = rng.choice([0, 1, 2 ** 32 - 1, rng.getrandbits(32)])
+            lab = labels if labels is not None else [rng.choice(LABELS + [rng.randrange(2 ** 20)])]
             v = {'rd': rd}
             if rt == 1:
                 v.update(esi=e, eth_tag_id=tag, label=lab)
             elif rt == 2:
-                v.update(esi=e, eth_tag_id=tag, mac=rng.choice([0, 2 ** 48 - 1, rng.getrandbits(48)]), label=lab)
+                v.update(esi=e, eth_tag_id=tag, mac=rng.choice([0, 2 ** 48 - 1, rng.getrandbits(48)]) if mac is None else mac,
+                         label=lab)
                 if has_ip:
                     v['ip'] = ip
             elif rt == 3:
-                v.update(eth_tag_id=tag, ip=ip)
+                v.update(eth_tag_id=tag)
+                if has_ip:
+                    v['ip'] = ip
             else:
-                v.update(esi=e, ip=ip)
+                v.update(esi=e)
+                if has_ip:
+                    v['ip'] = ip
             return {'type': rt, 'value': v}
 
-        def add(kind, routes, nh=None):
+        def add(kind, routes, nh=None, out_of_range=None, noncanon=False):
             cls = []
             for r in routes:
                 e = r['value'].get('esi')
@@ -89,27 +196,122 @@ class Evpn(Family):
                     cls.append('ipv6-address-below-2^32')
             if nh and nh[0] == 6 and nh[1] < 2 ** 32:
                 cls.append('ipv6-address-below-2^32')
-            cases.append({'fam': self.name, 'kind': kind, 'v': {'routes': routes, 'nh': nh}, 'cls': sorted(set(cls))})
+            if noncanon:
+                cls.append('mac-text-not-canonical')
+            c = {'fam': self.name, 'kind': kind, 'v': {'routes': routes, 'nh': nh}, 'cls': sorted(set(cls))}
+            if out_of_range:
+                c['out_of_range'] = out_of_range
+                c['cls'] = ['out-of-range: ' + out_of_range]
+                cov['out_of_range_cases'] += 1
+            cov['routes_per_attribute'][len(routes)] = cov['routes_per_attribute'].get(len(routes), 0) + 1
+            cases.append(c)
 
+        # every ESI type, small and large field values, in every route type that carries an ESI
         for rt in (1, 2, 4):
             for t in range(6):
                 for big in (False, True):
                     for _ in range(3 if ctx.thorough else 1):
                         add('reach', [route(rt, esi(t, big))], addr())
                         add('unreach', [route(rt, esi(t, big))])
+                        cov['esi_types_small_large'] += 2
+        # ESI field boundaries one by one
+        for e in ([{'type': 0, 'value': v} for v in (0, 1, 15, 16, 255, 256, 2 ** 64, 2 ** 68 - 1, 2 ** 68, 2 ** 72 - 1)] +
+                  [{'type': t, 'value': {ESI_MAC_KEY[t][0]: m, ESI_MAC_KEY[t][1]: n}}
+                   for t in (1, 2) for m in (0, 2 ** 48 - 1) for n in (0, 255, 256, 65535)] +
+                  [{'type': 3, 'value': {'sys_mac_addr': m, 'ld_value': n}}
+                   for m in (0, 0x0a0b0c0d0e0f) for n in (0, 255, 256, 65535, 65536, 2 ** 24 - 1)] +
+                  [{'type': t, 'value': {ESI_INT_KEY[t][0]: a, ESI_INT_KEY[t][1]: b}}
+                   for t in (4, 5) for a in (0, 65535, 65536, 2 ** 32 - 1) for b in (0, 2 ** 32 - 1)]):
+            add('reach', [route(rng.choice([1, 2, 4]), e)], addr())
+            cov['esi_types_small_large'] += 1
+        # RD types 0/1/2 at field boundaries, in every route type
         for rt in (1, 2, 3, 4):
             for rd in rd_boundaries():
                 add('reach', [route(rt, None, rd)], addr())
+                cov['rd_boundary_cases'] += 1
+        # ethernet tag 0 / 1 / max
+        for rt in (1, 2, 3):
+            for tag in (0, 1, 2 ** 31, 2 ** 32 - 1):
+                add(rng.choice(['reach', 'unreach']), [route(rt, tag=tag)], addr())
+                cov['eth_tag_boundary_cases'] += 1
+        # label values: alone, first and last of a stack of two (route types 1 and 2)
+        for lab in LABELS:
+            for rt in (1, 2):
+                add('reach', [route(rt, labels=[lab])], addr())
+                add('reach', [route(rt, labels=[lab, 17])], addr())
+                add('unreach', [route(rt, labels=[17, lab])])
+                cov['label_value_cases'] += 3
+        add('reach', [route(1, labels=[16, 0, 2 ** 20 - 1, 0])], addr())
+        add('reach', [route(2, labels=[])], addr())                  # a MAC/IP route may come without label
+        add('reach', [route(1, esi(0), labels=[rng.randrange(2 ** 20) for _ in range(77)])], addr())   # 255 octets: the longest
         # MAC / IP presence combinations, one and two labels
         for has_ip in (False, True):
             for v6 in (False, True):
                 for labels in ([16], [16, 17], [0], [2 ** 20 - 1, 1]):
                     add('reach', [route(2, None, None, addr(v6), labels, has_ip)], addr())
+                    cov['mac_ip_presence_cases'] += 1
+        for m in (0, 1, 0x00ffffffffff, 0xff0000000000, 0x0123456789ab, 2 ** 48 - 1):
+            add('reach', [route(2, mac=m, has_ip=rng.random() < .5)], addr())
+            cov['mac_ip_presence_cases'] += 1
+        for ipv in ((4, 0), (4, 2 ** 32 - 1), (6, 2 ** 32), (6, 2 ** 128 - 1)):
+            for rt in (2, 3, 4):
+                add('reach', [route(rt, ip=ipv)], addr())
+                cov['mac_ip_presence_cases'] += 1
+        # MAC text that is accepted but not in the decoder's form (same address: the expected value is
+        # the canonical text)
+        for txt in ('aa-bb-cc-dd-ee-ff', '0-1-2-3-4-5', '0a-0B-0c-0D-0e-0F', '0x1f-00-00-00-00-01', ' 1-2-3-4-5-6 ', '+a-0_1-2-3-4-5'):
+            add('reach', [route(2, mac=txt)], addr(), noncanon=True)
+            et = rng.choice([1, 2, 3])
+            add('unreach', [route(1, {'type': et, 'value': {ESI_MAC_KEY[et][0]: txt, ESI_MAC_KEY[et][1]: 7}})],
+                None, noncanon=True)
+            cov['mac_text_forms'] += 2
+        # IPv6 values below 2^32 (known finding)
         for rt in (2, 3, 4):
             add('reach', [route(rt, esi(0), None, addr(True, low=True))], addr())
         add('reach', [route(3)], addr(True, low=True))
+        # 1..n routes per attribute
+        for n in (1, 2, 3, 4, 5, 6, 8):
+            add('reach', [route(rng.randrange(1, 5)) for _ in range(n)], addr())
+            add('unreach', [route(rng.randrange(1, 5)) for _ in range(n)])
         for _ in range(300 if ctx.thorough else 40):
             add(rng.choice(['reach', 'reach', 'unreach']), [route(rng.randrange(1, 5)) for _ in range(rng.choice([1, 2, 3, 6]))], addr())
+        add('reach', [], addr())
+        cases.append({'fam': self.name, 'kind': 'unreach', 'v': {'routes': [], 'nh': None}, 'cls': [], 'empty': True})
+        # ---- out of range: model and implementation are compared, the round-trip oracle does not apply
+        for txt in ('', '12', '00-11-22-33-44', '00-11-22-33-44-55-66', '00-11-22-33-44-GG', '00-11-22-33-44-100',
+                    '00-11-22-33-44--1', '00:11:22:33:44:55', '00-11-22-33-44-', '0_-1-2-3-4-5'):
+            add('reach', [route(2, mac=txt)], addr(), out_of_range='MAC text %r' % txt)
+            add('reach', [route(4, {'type': 3, 'value': {'sys_mac_addr': txt, 'ld_value': 1}})], addr(),
+                out_of_range='ESI MAC text %r' % txt)
+        for rt in (3, 4):
+            add('reach', [route(rt, has_ip=False)], addr(), out_of_range='route type %d without address' % rt)
+            add('unreach', [route(1), route(rt, has_ip=False)], None, out_of_range='route type %d without address' % rt)
+        add('reach', [route(1, labels=[])], addr(), out_of_range='route type 1 without label')
+        add('reach', [route(1, labels=[16] * 78)], addr(), out_of_range='route of 258 octets')
+        add('reach', [route(2, labels=[16] * 74, ip=(6, 2 ** 127))], addr(), out_of_range='route of more than 255 octets')
+        add('reach', [route(1, labels=[2 ** 20])], addr(), out_of_range='label 2^20')
+        add('reach', [route(1, labels=[2 ** 28 - 1, 5])], addr(), out_of_range='label 2^28-1')
+        add('reach', [route(1, labels=[2 ** 28])], addr(), out_of_range='label 2^28')
+        for rt in (1, 2, 3):
+            add('reach', [route(rt, tag=2 ** 32)], addr(), out_of_range='ethernet tag 2^32')
+        for e, why in (({'type': 0, 'value': 2 ** 72}, 'ESI type 0 value 2^72 (19 hex digits)'),
+                       ({'type': 0, 'value': 2 ** 76}, 'ESI type 0 value 2^76 (20 hex digits)'),
+                       ({'type': 0, 'value': 2 ** 80 - 1}, 'ESI type 0 value 2^80-1'),
+                       ({'type': 1, 'value': {'ce_mac_addr': 5, 'ce_port_key': 65536}}, 'ESI port key 65536'),
+                       ({'type': 2, 'value': {'rb_mac_addr': 5, 'rb_priority': 65536}}, 'ESI priority 65536'),
+                       ({'type': 3, 'value': {'sys_mac_addr': 5, 'ld_value': 2 ** 24}}, 'ESI type 3 discriminator 2^24'),
+                       ({'type': 3, 'value': {'sys_mac_addr': 5, 'ld_value': 2 ** 32}}, 'ESI type 3 discriminator 2^32'),
+                       ({'type': 4, 'value': {'router_id': 2 ** 32, 'ld_value': 0}}, 'ESI router id 2^32'),
+                       ({'type': 5, 'value': {'as_num': 0, 'ld_value': 2 ** 32}}, 'ESI discriminator 2^32'),
+                       ({'type': 6, 'value': {}}, 'ESI type 6'), ({'type': 255, 'value': {}}, 'ESI type 255')):
+            for rt in (1, 2, 4):
+                add('reach', [route(rt, e)], addr(), out_of_range=why)
+        for rd in (('as', 65535, 2 ** 32), ('as', 65536, 65536), ('as', 2 ** 32, 1), ('ip', 1, 65536)):
+            add('reach', [route(3, None, rd)], addr(), out_of_range='route distinguisher %s' % rd_text(rd))
+        for t in (0, 6, 255):
+            add('reach', [route(1), {'type': t, 'value': {'rd': ('as', 1, 1)}}, route(3)], addr(),
+                out_of_range='route type %d' % t)
+            add('unreach', [{'type': t, 'value': {'rd': ('as', 1, 1)}}], None, out_of_range='route type %d' % t)
         # ---- encoded-size boundaries: attribute value length.  Encoded route sizes (type, length, value):
         # type 3 with IPv4/IPv6 originator 19/31, type 1 27, type 4 25/37, type 2 (one label) 35/39/51
         def sized_route(k):
@@ -138,60 +340,82 @@ class Evpn(Family):
     def atext(a):
         return ip4(a[1]) if a[0] == 4 else ip6(a[1])
 
+    def impl_route(self, r):
+        x = copy.deepcopy(r['value'])
+        x['rd'] = rd_text(x['rd'])
+        if 'mac' in x:
+            x['mac'] = mac_text(x['mac'])
+        if 'ip' in x:
+            x['ip'] = self.atext(x['ip'])
+        e = x.get('esi')
+        if e and e['type'] in ESI_MAC_KEY:
+            k = ESI_MAC_KEY[e['type']][0]
+            e['value'][k] = mac_text(e['value'][k])
+        return {'type': r['type'], 'value': x}
+
     def impl_value(self, case):
         v = case['v']
-        nl = []
-        for r in v['routes']:
-            x = copy.deepcopy(r['value'])
-            x['rd'] = rd_text(x['rd'])
-            if 'mac' in x:
-                x['mac'] = mac_text(x['mac'])
-            if 'ip' in x:
-                x['ip'] = self.atext(x['ip'])
-            nl.append({'type': r['type'], 'value': x})
+        nl = [self.impl_route(r) for r in v['routes']]
         if case['kind'] == 'unreach':
             return {'afi_safi': (25, 70), 'withdraw': nl}
         return {'afi_safi': (25, 70), 'nexthop': self.atext(v['nh']), 'nlri': nl}
 
-    @staticmethod
-    def canon_route(r):
-        x = dict(r['value'])
-        out = [r['type'], crd(x.pop('rd'))]
-        e = x.pop('esi', None)
-        if e is not None:
-            ev = e['value']
-            if isinstance(ev, dict):
-                ev = sorted((k, cmac(val) if k.endswith('mac_addr') else val) for k, val in ev.items())
-            out.append(['esi', e['type'], ev])
-        if 'mac' in x:
-            out.append(['mac', cmac(x.pop('mac'))])
-        if 'ip' in x:
-            out.append(['ip', caddr(x.pop('ip'))])
-        for k in sorted(x):
-            out.append([k, x[k]])
-        return out
+    # ---- model side
+    def coq_construct(self, case):
+        v = case['v']
+        rs = coq_list(v['routes'], coq_route)
+        if case['kind'] == 'reach':
+            return 'sx_res SB (reachevpn_construct %s %s)' % (coq_addr(v['nh']), rs)
+        return 'sx_res sx_optbytes (unreachevpn_construct %s)' % rs
 
+    def coq_parse(self, case, octets):
+        if case['kind'] == 'reach':
+            return 'sx_res sx_reachevpn (reachevpn_parse %s)' % coq_bytes(octets)
+        return 'sx_res (sx_list sx_proute) (unreachevpn_parse %s)' % coq_bytes(octets)
+
+    # ---- implementation side
     def canon(self, case, p):
         assert tuple(p['afi_safi']) == (25, 70)
         if case['kind'] == 'reach':
-            return [caddr(p['nexthop']), [self.canon_route(r) for r in p['nlri']]]
-        return [self.canon_route(r) for r in p['withdraw']]
+            return [caddr(p['nexthop']), [canon_route(r) for r in p['nlri']]]
+        return [canon_route(r) for r in p['withdraw']]
 
     def expected(self, case, low=False):
-        val = self.impl_value(case)
-        key = 'nlri' if case['kind'] == 'reach' else 'withdraw'
-        rs = [self.canon_route(r) for r in val[key]]
-        nh = list(case['v']['nh']) if case['kind'] == 'reach' else None
-        if low:
-            def fix(a):
-                return [4, a[1]] if a[1] < 2 ** 32 else a
-            for r in rs:
-                for f in r[2:]:
-                    if f[0] == 'ip':
-                        f[1] = fix(f[1])
-            if nh:
-                nh = fix(nh)
-        return [nh, rs] if case['kind'] == 'reach' else rs
+        """the canonical form of the input itself (MAC text in the decoder's spelling)"""
+        def fix(a):
+            return [4, a[1]] if low and a[1] < 2 ** 32 else list(a)
+
+        if case.get('out_of_range'):
+            return None
+
+        def mt(m):
+            if isinstance(m, str):      # the address the accepted text stands for
+                m = int(''.join('%02x' % int(g, 16) for g in m.split('-')), 16)
+            return ctext(mac_text(m))
+
+        def xesi(e):
+            t, ev = e['type'], e['value']
+            if t == 0:
+                return [0, ev]
+            if t in ESI_MAC_KEY:
+                return [t, mt(ev[ESI_MAC_KEY[t][0]]), ev[ESI_MAC_KEY[t][1]]]
+            return [t, ev[ESI_INT_KEY[t][0]], ev[ESI_INT_KEY[t][1]]]
+        rs = []
+        for r in case['v']['routes']:
+            t, x = r['type'], r['value']
+            rd = [1 if x['rd'][0] == 'ip' else 0, x['rd'][1], x['rd'][2]]
+            ip = [fix(x['ip'])] if 'ip' in x else []
+            if t == 1:
+                rs.append([1, rd, xesi(x['esi']), x['eth_tag_id'], list(x['label'])])
+            elif t == 2:
+                rs.append([2, rd, xesi(x['esi']), x['eth_tag_id'], mt(x['mac']), ip, list(x.get('label') or [])])
+            elif t == 3:
+                rs.append([3, rd, x['eth_tag_id'], ip])
+            else:
+                rs.append([4, rd, xesi(x['esi']), ip])
+        if case['kind'] == 'reach':
+            return [fix(case['v']['nh']), rs]
+        return rs
 
     def classify(self, case, stage, obs):
         cls = case['cls']
@@ -200,6 +424,76 @@ class Evpn(Family):
         if 'ipv6-address-below-2^32' in cls and stage == 'differs' and obs == self.expected(case, low=True):
             return K_LOW
         return None
+
+    # ---- hand-made octet strings for the decoder (no construct side): (coq term, impl canonical, case, what)
+    def extra_pairs(self, ctx):
+        from yabgp.message.attribute.mpreachnlri import MpReachNLRI
+        from yabgp.message.attribute.mpunreachnlri import MpUnReachNLRI
+        rng = ctx.rng
+        rd0 = bytes([0, 0, 0, 100, 0, 0, 0, 1])
+        esi0 = bytes([0] * 9 + [7])
+        tag = bytes([0, 0, 0, 9])
+        lab = bytes([0, 1, 1])
+        v4, v6 = bytes([10, 0, 0, 1]), bytes([0x20, 1] + [0] * 13 + [1])
+        routes = []
+
+        def rt(t, body):
+            return bytes([t, len(body)]) + body
+        # route type 5 with IPv4 / IPv6 widths and with neither
+        routes.append(rt(5, rd0 + esi0 + tag + bytes([24]) + v4 + v4 + lab))
+        routes.append(rt(5, rd0 + esi0 + tag + bytes([64]) + v6 + v6 + lab))
+        routes.append(rt(5, rd0 + esi0 + tag + bytes([24]) + v4 + v4))
+        routes.append(rt(5, rd0 + esi0 + tag + bytes([24]) + bytes(8) + bytes(8) + lab * 2))
+        routes.append(rt(5, rd0 + esi0 + tag + bytes([24])))
+        # unknown route types are skipped, also between known ones
+        routes.append(rt(0, b'') + rt(3, rd0 + tag + bytes([32]) + v4) + rt(6, bytes(5)) + rt(255, bytes(3)))
+        # ESI types: unknown, and each known type cut short inside the route
+        for t in (6, 255):
+            routes.append(rt(4, rd0 + bytes([t] + [1] * 9) + bytes([32]) + v4))
+        good = {1: rd0 + esi0 + tag + lab,
+                2: rd0 + esi0 + tag + bytes([48, 1, 2, 3, 4, 5, 6, 32]) + v4 + lab,
+                3: rd0 + tag + bytes([128]) + v6,
+                4: rd0 + bytes([3, 1, 2, 3, 4, 5, 6, 9, 9, 9]) + bytes([32]) + v4}
+        for t, body in sorted(good.items()):
+            cuts = range(len(body) + 1) if ctx.thorough else sorted(set([0, 1, 2, 7, 8, 9, 12, 13, 17, 18, 19, 21, 22, 23, 24,
+                                                                      28, 29, 30, 31, len(body) - 1, len(body)]) & set(range(len(body) + 1)))
+            for k in cuts:
+                routes.append(rt(t, body[:k]))
+        # every ESI type with every number of ESI octets present (route type 4 cut inside the ESI is above;
+        # here the ESI is complete and the type varies), unusual address lengths, MAC length octet ignored
+        for t in range(6):
+            routes.append(rt(1, rd0 + bytes([t]) + bytes(rng.getrandbits(8) for _ in range(9)) + tag + lab))
+        for l in (0, 1, 7, 8, 31, 32, 33, 64, 127, 128, 129, 136, 255):
+            routes.append(rt(3, rd0 + tag + bytes([l]) + bytes([0x20] + [1] * 31)))
+            routes.append(rt(2, rd0 + esi0 + tag + bytes([rng.choice([0, 48, 255]), 1, 2, 3, 4, 5, 6, l]) + bytes([0x20] + [1] * 18) + lab))
+        for rdt in (0, 1, 2, 3, 65535):
+            routes.append(rt(3, bytes([rdt >> 8, rdt & 255, 1, 2, 3, 4, 5, 6]) + tag + bytes([32]) + v4))
+        # a truncated NLRI (type octet only), a length octet beyond the end, label stack forms
+        routes.append(bytes([3]))
+        routes.append(bytes([3, 200]) + rd0 + tag + bytes([32]) + v4)
+        routes.append(rt(1, rd0 + esi0 + tag + bytes([0, 1, 0, 0, 2, 1, 0, 3, 1])))
+        routes.append(rt(1, rd0 + esi0 + tag + bytes([0, 0, 0, 0, 2, 0, 9])))
+        out = []
+        for nl in routes:
+            for kind in ('reach', 'unreach'):
+                if kind == 'reach':
+                    nhb = rng.choice([v4, v6, b'', bytes(5)])
+                    octets = bytes([0, 25, 70, len(nhb)]) + nhb + b'\x00' + nl
+                    cls, render, term = MpReachNLRI, (lambda p: [caddr(p['nexthop']), [canon_route(r) for r in p['nlri']]]), \
+                        'sx_res sx_reachevpn (reachevpn_parse %s)' % coq_bytes(octets)
+                else:
+                    octets = bytes([0, 25, 70]) + nl
+                    cls, render, term = MpUnReachNLRI, (lambda p: [canon_route(r) for r in p['withdraw']]), \
+                        'sx_res (sx_list sx_proute) (unreachevpn_parse %s)' % coq_bytes(octets)
+                st, p = run_impl(lambda: cls.parse(octets))
+                if st == 'exc':
+                    pc = [2]
+                else:
+                    st2, c = run_impl(lambda: render(p))
+                    pc = [0, c] if st2 == 'ok' else [0, [99]]
+                out.append((term, pc, {'fam': self.name, 'kind': kind, 'raw': octets.hex()}, 'parse of hand-made octets'))
+        self.coverage['hand_made_octet_strings'] = len(out)
+        return out
 
 
 FAMILIES = [Evpn()]
